@@ -1,29 +1,38 @@
 package main
 
 import (
-	"strings"
-	"golang.org/x/tools/go/ssa"
 	"fmt"
 	"go/ast"
+	"golang.org/x/tools/go/ssa"
 	"os"
+	"strings"
 )
 
 func init() {
 	register("DBG", "debug", func(c *Ctx, r *Report) {
 		fn := os.Getenv("DBG_FN")
 		fi := c.W.fn(fn)
-		if fi == nil { fmt.Println("no fn", fn); return }
+		if fi == nil {
+			fmt.Println("no fn", fn)
+			return
+		}
 		g := c.W.cfgOf(fi)
 		fmt.Println(g.Format(c.W.Fset))
-		for _, b := range g.Blocks { fmt.Println(b.Index, b.Kind, b.Stmt != nil, len(b.Succs)) }
+		for _, b := range g.Blocks {
+			fmt.Println(b.Index, b.Kind, b.Stmt != nil, len(b.Succs))
+		}
 		ast.Inspect(fi.Decl, func(n ast.Node) bool {
 			if cl, ok := n.(*ast.CallExpr); ok {
 				fmt.Println(c.W.pos(cl.Pos()), calleeOfCall(fi.Pkg.TypesInfo, cl))
-				for _, a := range cl.Args { fmt.Println("    arg atoms:", c.W.exprAtoms(fi, a)) }
+				for _, a := range cl.Args {
+					fmt.Println("    arg atoms:", c.W.exprAtoms(fi, a))
+				}
 			}
 			return true
 		})
-		if os.Getenv("DBG_SSA") != "" { fi.SSA.WriteTo(os.Stdout) }
+		if os.Getenv("DBG_SSA") != "" {
+			fi.SSA.WriteTo(os.Stdout)
+		}
 		r.add("DBG", "debug", "x", "x", nil, nil, "")
 	})
 }
@@ -60,19 +69,31 @@ func init() {
 		w := c.W
 		sites, n, sums := w.nilDerefSites()
 		fmt.Println("== may-return-nil summaries:", len(sums), "calls:", n)
-		for _, s := range sums { fmt.Println("   ", s) }
+		for _, s := range sums {
+			fmt.Println("   ", s)
+		}
 		fmt.Println("== nil deref sites:", len(sites))
-		for _, s := range sites { fmt.Println("   ", w.pos(s.Pos), s.Key, s.Use) }
+		for _, s := range sites {
+			fmt.Println("   ", w.pos(s.Pos), s.Key, s.Use)
+		}
 		ps := w.panicSites()
 		fmt.Println("== panic sites:", len(ps))
-		for _, s := range ps { fmt.Println("   ", w.pos(s.Pos), s.Key) }
+		for _, s := range ps {
+			fmt.Println("   ", w.pos(s.Pos), s.Key)
+		}
 		fmt.Println("== recursion SCCs")
-		for _, s := range w.recursionSCCs() { fmt.Println("   ", s) }
+		for _, s := range w.recursionSCCs() {
+			fmt.Println("   ", s)
+		}
 		fmt.Println("== cond loops")
-		for _, s := range w.condLoops() { fmt.Println("   ", w.pos(s.Pos), s.Key, s.Desc) }
+		for _, s := range w.condLoops() {
+			fmt.Println("   ", w.pos(s.Pos), s.Key, s.Desc)
+		}
 		ed := w.errDropSites()
 		fmt.Println("== err drops:", len(ed))
-		for _, s := range ed { fmt.Println("   ", w.pos(s.Pos), s.Key) }
+		for _, s := range ed {
+			fmt.Println("   ", w.pos(s.Pos), s.Key)
+		}
 		r.add("DBGC", "debug", "x", "x", nil, nil, "")
 	})
 }
@@ -83,21 +104,41 @@ func init() {
 		for _, en := range c.T.Order {
 			eng := c.T.Engines[en]
 			add := func(tpl, el string) {
-				if prof[tpl] == nil { prof[tpl] = map[string]map[string]bool{} }
-				if prof[tpl][en] == nil { prof[tpl][en] = map[string]bool{} }
+				if prof[tpl] == nil {
+					prof[tpl] = map[string]map[string]bool{}
+				}
+				if prof[tpl][en] == nil {
+					prof[tpl][en] = map[string]bool{}
+				}
 				prof[tpl][en][el] = true
 			}
-			for _, rd := range eng.Reads { add(rd.Tpl, "read:"+rd.Path+"=>"+fmt.Sprint(rd.Fields)) }
-			for _, h := range eng.Helpers { add(h.Tpl, "helper:"+h.Helper+fmt.Sprint(h.Args)) }
-			for _, iv := range eng.Invokes { add(iv.Tpl, "invoke:"+iv.Partial+"{"+iv.Hash+"}") }
+			for _, rd := range eng.Reads {
+				add(rd.Tpl, "read:"+rd.Path+"=>"+fmt.Sprint(rd.Fields))
+			}
+			for _, h := range eng.Helpers {
+				add(h.Tpl, "helper:"+h.Helper+fmt.Sprint(h.Args))
+			}
+			for _, iv := range eng.Invokes {
+				add(iv.Tpl, "invoke:"+iv.Partial+"{"+iv.Hash+"}")
+			}
 		}
 		for tpl, pe := range prof {
 			all := map[string]bool{}
-			for _, s := range pe { for k := range s { all[k] = true } }
+			for _, s := range pe {
+				for k := range s {
+					all[k] = true
+				}
+			}
 			for el := range all {
 				var missing []string
-				for _, en := range c.T.Order { if !pe[en][el] { missing = append(missing, en) } }
-				if len(missing) > 0 { fmt.Println(tpl, "|", el, "| missing in", missing) }
+				for _, en := range c.T.Order {
+					if !pe[en][el] {
+						missing = append(missing, en)
+					}
+				}
+				if len(missing) > 0 {
+					fmt.Println(tpl, "|", el, "| missing in", missing)
+				}
 			}
 		}
 		r.add("DBGT", "debug", "x", "x", nil, nil, "")
@@ -109,9 +150,14 @@ func init() {
 		ref := map[string][]string{}
 		for _, en := range c.T.Order {
 			gp, err := parseGoPartial(c.T.Engines[en].Partials["FunctionDeclarations"])
-			if err != nil { fmt.Println(err); continue }
+			if err != nil {
+				fmt.Println(err)
+				continue
+			}
 			fns := normalisedFuncs(gp)
-			if en == "gin" { ref = fns }
+			if en == "gin" {
+				ref = fns
+			}
 			_ = fns
 		}
 		for _, en := range c.T.Order {
@@ -119,14 +165,28 @@ func init() {
 			fns := normalisedFuncs(gp)
 			for name, toks := range fns {
 				rt, ok := ref[name]
-				if !ok { fmt.Println(en, name, "not in gin"); continue }
+				if !ok {
+					fmt.Println(en, name, "not in gin")
+					continue
+				}
 				if fmt.Sprint(rt) != fmt.Sprint(toks) {
 					// first difference
 					i := 0
-					for i < len(rt) && i < len(toks) && rt[i] == toks[i] { i++ }
-					lo := i - 3; if lo < 0 { lo = 0 }
-					hi1 := i + 6; if hi1 > len(rt) { hi1 = len(rt) }
-					hi2 := i + 6; if hi2 > len(toks) { hi2 = len(toks) }
+					for i < len(rt) && i < len(toks) && rt[i] == toks[i] {
+						i++
+					}
+					lo := i - 3
+					if lo < 0 {
+						lo = 0
+					}
+					hi1 := i + 6
+					if hi1 > len(rt) {
+						hi1 = len(rt)
+					}
+					hi2 := i + 6
+					if hi2 > len(toks) {
+						hi2 = len(toks)
+					}
 					fmt.Println(en, name, "differs at", i, "gin:", rt[lo:hi1], en+":", toks[lo:hi2])
 				}
 			}
@@ -137,7 +197,9 @@ func init() {
 
 func init() {
 	register("DBGV", "debug value receiver field address escapes", func(c *Ctx, r *Report) {
-		for _, s := range c.W.valueRecvFieldAddrEscapes() { fmt.Println(s) }
+		for _, s := range c.W.valueRecvFieldAddrEscapes() {
+			fmt.Println(s)
+		}
 		r.add("DBGV", "debug", "x", "x", nil, nil, "")
 	})
 }
@@ -257,7 +319,6 @@ func init() {
 		}
 	})
 }
-
 
 func init() {
 	register("DBGQ", "debug: sorts", func(c *Ctx, r *Report) {
